@@ -396,9 +396,14 @@ class DirichletClassificationLikelihood(FixedNoiseGaussianLikelihood):
     """
 
     def _prepare_targets(
-        self, targets: Tensor, alpha_epsilon: float = 0.01, dtype: torch.dtype = torch.float
+        self,
+        targets: Tensor,
+        alpha_epsilon: float = 0.01,
+        dtype: torch.dtype = torch.float,
+        num_classes: Optional[int] = None,
     ) -> Tuple[Tensor, Tensor, int]:
-        num_classes = int(targets.max() + 1)
+        if num_classes is None:
+            num_classes = int(targets.max() + 1)
         # set alpha = \alpha_\epsilon
         alpha = alpha_epsilon * torch.ones(targets.shape[-1], num_classes, device=targets.device, dtype=dtype)
 
@@ -468,6 +473,10 @@ class DirichletClassificationLikelihood(FixedNoiseGaussianLikelihood):
         if "targets" in kwargs:
             targets = kwargs.pop("targets")
             dtype = self.transformed_targets.dtype
-            new_noise, _, _ = self._prepare_targets(targets, dtype=dtype)
+            # the labels passed at call time are transformed like the training labels: same alpha_epsilon,
+            # same number of classes (they need not contain the highest class)
+            new_noise, _, _ = self._prepare_targets(
+                targets, alpha_epsilon=self.alpha_epsilon, dtype=dtype, num_classes=self.num_classes
+            )
             kwargs["noise"] = new_noise
         return super().__call__(input, *args, **kwargs)
